@@ -21,8 +21,10 @@ from harness import c05_lib
 
 # config -> (types of the source, actions that must be covered, adapter variants)
 FAMILY = {
-  "quick": [("order", ["A"]), ("remove", ["A"]), ("weak", ["A"]), ("err", ["A"])],
-  "thorough": [("orderM", ["A"]), ("removeM", ["A", "B"]), ("weakM", ["A"]), ("errM", ["A"])],
+  "quick": [("order", ["A"]), ("remove", ["A"]), ("weak", ["A"]), ("err", ["A"]),
+            ("bulk", ["A"])],
+  "thorough": [("orderM", ["A"]), ("removeM", ["A", "B"]), ("weakM", ["A"]), ("errM", ["A"]),
+               ("bulkM", ["A", "B"])],
 }
 BIG_MC = ["orderL", "removeL"]          # thorough: property only, no export
 COVER = {
@@ -30,6 +32,9 @@ COVER = {
   "remove": ["Subscribe", "Unsubscribe", "RaiseBegin", "Return", "RaiseSimple"],
   "weak": ["Subscribe", "AutoBind", "Unsubscribe", "DropOwner", "RaiseBegin", "Return", "RaiseSimple"],
   "err": ["Subscribe", "RaiseBegin", "Return", "RaiseSimple"],
+  # removeListeners(list) / clearHandlers(); UnsubscribeManyAny is the named
+  # wrapper of \E items : UnsubscribeMany(items) (TLC names coverage by it)
+  "bulk": ["Subscribe", "UnsubscribeManyAny", "ClearAll", "RaiseBegin", "Return", "RaiseSimple"],
 }
 VARIANTS = [dict(hook="none", prios="std", decl="class"),
             dict(hook="core", prios="unit", decl="dyn"),
@@ -77,7 +82,7 @@ def run(ctx):
     jobs += [("MC_%s.cfg" % n, dict(workers=3, timeout=1500)) for n, _ in fam]
     jobs += [("MC_%s.cfg" % n, dict(workers=4, timeout=2400)) for n in BIG_MC]
     jobs += [("PATHS_depth7.cfg", dict(workers=1, coverage=False, timeout=1500))]
-  with concurrent.futures.ThreadPoolExecutor(max_workers=4) as ex:
+  with concurrent.futures.ThreadPoolExecutor(max_workers=5 if quick else 4) as ex:
     results = list(ex.map(_tlc, jobs))
   res = dict(zip([j[0] for j in jobs], results))
   exports = {}
